@@ -102,3 +102,50 @@ def mkopts(o):
     o = dict(o or {})
     o.pop('ml', None)
     return Options(**o)
+
+
+def _preimport():
+    """import every package / class module once, natively: `import` statements executed by
+    \\usepackage while a document is parsed under the tracer then hit the module cache"""
+    import glob
+    import importlib
+    for sub in ('packages', 'documentclasses'):
+        for f in sorted(glob.glob(os.path.join(REPO, 'yalafi', sub, '*.py'))):
+            name = os.path.basename(f)[:-3]
+            if name != '__init__':
+                try:
+                    importlib.import_module('yalafi.%s.%s' % (sub, name))
+                except Exception:      # noqa: a broken module shows up in the checks
+                    pass
+
+
+_preimport()
+
+
+def _native_parser_init():
+    """Parser.__init__ (tables of built-in macros, package set-up for the --pack option) does
+    not depend on the document: under CrossHair it is executed natively instead of traced
+    (same code, same result, ~10x faster per path).  Packages loaded BY the document
+    (\\usepackage) are still initialised under the tracer."""
+    try:
+        from crosshair.core_and_libs import NoTracing
+    except ImportError:
+        return
+    orig = parser.Parser.__init__
+    if getattr(orig, '_vf_native', False):
+        return
+
+    def init(self, parms, packages=[], read_macros=None):
+        with NoTracing():
+            orig(self, parms, packages, read_macros)
+    init._vf_native = True
+    parser.Parser.__init__ = init
+    orig_p = parameters.Parameters.__init__
+
+    def pinit(self, language='en'):
+        with NoTracing():
+            orig_p(self, language)
+    parameters.Parameters.__init__ = pinit
+
+
+_native_parser_init()
